@@ -37,10 +37,39 @@ def check(repo: Repo, R) -> None:
     R.run(_c18.check, repo, Retag(R, lambda r, k: "C10.6-definition-views-hold-current-members" if r.startswith("C18.1") and k.startswith("hdl21/bundle.py") else None,
                                  "a member replaced by a member of the other kind stays in its per-kind view: the bundle port flattens to ports for leaves the definition no longer has"))
     R.run(roles_distinguishable, repo, R)
+    R.run(anonymous_members_by_key, repo, R)
     R.floor("C10.1-portdir-flipped", 1)
     R.floor("C10.2-direction-visibility-table", 1)
     R.floor("C10.3-flip-parity", 4)
     R.floor("C10.4-flattened-names", 5)
+
+
+def anonymous_members_by_key(repo: Repo, R):
+    """The parent side of a bundle connection made of an anonymous bundle files each member under the key it was
+    given there (`bundlize(tx=rx)` connects member tx) — whatever kind the member is and whatever it is called itself."""
+    rule = "C10.5-both-sides-agree-on-members"
+    from . import shared as _sh
+    fa = repo.func(F_FLATB, "BundleFlattener.flatten_anonymous_bundle")
+    loops = [n for n in au.walk_no_nested(fa.node) if isinstance(n, ast.For) and isinstance(n.target, ast.Tuple) and len(n.target.elts) == 2 and ast.unparse(_sh.prov(fa.node, n.iter)).endswith("._namespace.items()")]
+    if len(loops) != 1:
+        raise AnalysisError(f"idiom-unknown: the member loop of {fa.site}")
+    kv = ast.unparse(loops[0].target.elts[0])
+    filed = []
+    for c in au.calls_in(loops[0]):
+        if isinstance(c.func, ast.Attribute) and c.func.attr == "add_subscope" and len(c.args) == 2:
+            filed.append((c, _sh.prov(fa.node, c.args[0]), "sub-scope"))
+    for st in au.walk_no_nested(loops[0]):
+        if isinstance(st, ast.Assign) and len(st.targets) == 1 and isinstance(st.targets[0], ast.Subscript) and ast.unparse(st.targets[0].value).endswith(".signals"):
+            k = _sh.prov(fa.node, st.targets[0].slice)
+            if isinstance(k, ast.Call) and ast.unparse(k.func) == "Path" and len(k.args) == 1 and isinstance(k.args[0], (ast.List, ast.Tuple)) and len(k.args[0].elts) == 1:
+                k = k.args[0].elts[0]
+            filed.append((st, k, "signal"))
+    if len(filed) < 4:
+        raise AnalysisError(f"idiom-unknown: {fa.site} files {len(filed)} kinds of member; 4 were confirmed by reading")
+    bad = [(n, ast.unparse(k), what) for n, k, what in filed if ast.unparse(k) != kv]
+    R.check(not bad, rule, key_of(fa, "filed-under-its-key"), fa.at(bad[0][0]) if bad else fa.site,
+            f"all {len(filed)} kinds of anonymous-bundle member are filed under the member key `{kv}`" if not bad else f"a {bad[0][2]} member is filed under `{bad[0][1]}`, not under its key `{kv}`",
+            why="`bundlize(tx=rx, rx=tx)` (a cross-over) is wired straight: the held instances are matched by their own names, not by the members they were given as")
 
 
 def enum_members(repo: Repo, rel: str, cls: str) -> List[str]:
@@ -371,6 +400,24 @@ def roles_distinguishable(repo: Repo, R):
                 if isinstance(nm, ast.Assign) and ast.unparse(nm.targets[0]) == f"{val}.name" and ast.unparse(nm.value) == key and _sh.precedes(fb.node, nm, st):
                     extra = [(ast.unparse(t), pol) for t, pol in _sh.path_conditions(fb.node, nm) if (ast.unparse(t), pol) not in {(ast.unparse(t2), p2) for t2, p2 in _sh.path_conditions(fb.node, st)}]
                     named = all(t_ == f"{val}.name is None" and pol for t_, pol in extra)
+    # ... in place — so the roles handed out by `n * Role()` / `Roles(n)` are n objects, each made for its own position
+    from . import c09 as _c09
+    for fr_ in (repo.func("hdl21/role.py", "Role.__rmul__"), repo.func("hdl21/role.py", "Roles")):
+        outs = []
+        for r_ in _sh.returns_of(fr_.node):
+            if r_.value is None or ast.unparse(r_.value) == "NotImplemented":
+                continue
+            ce = _c09._collection_elements(fr_.node, r_.value)
+            if ce is None:
+                outs.append((False, f"`{ast.unparse(_sh.prov(fr_.node, r_.value))[:60]}` is not built element by element"))
+                continue
+            for e_, _c in ce[0]:
+                ev = _sh.prov(fr_.node, e_)
+                fresh = isinstance(ev, ast.Call) and (dotted(ev.func) or "").split(".")[-1] in ("copy", "deepcopy", "Role", "replace")
+                outs.append((fresh, f"element `{ast.unparse(ev)[:50]}`"))
+        ok_ = bool(outs) and all(f_ for f_, _t in outs)
+        R.check(ok_, rule, key_of(fr_, "distinct-objects"), fr_.site, f"{fr_.qual} returns a new Role object for every position: {[t for _f, t in outs]}",
+                why="`Host, Device = 2 * h.Role()` is one object under two names: the bundle decorator names it `Host`, `Device` is that same role, and every role-carrying leaf becomes an output on both sides")
     R.check(by_identity or named, rule, key_of(fb, "roles-named"), fb.site,
             "roles are compared by identity" if by_identity else f"a Role is compared by its name; every un-named role of a bundle body is named after its attribute before it enters the role table: {named}",
             why="`Host, Device = 2 * h.Role()` gives one role twice: src and dest both match every instance role, and all flattened ports of the bundle become outputs")
